@@ -92,8 +92,9 @@ void pv_gen_string(pv_rng* r, unsigned enabled, pv_gstr* g) {
         }
         break;
     case G_ACCENT:
-        for (int i = 0; i < 16; ++i) if (pv_randn(r, 2)) {
+        for (int i = 0; i < 16; ++i) if (i == 0 || pv_randn(r, 2)) {
             uint32_t cp[128], out[160]; int n = pv_utf8_decode(v.t[i], cp, 128), m = 0;
+            if (pv_randn(r, 6) == 0) out[m++] = 0x300 + pv_randn(r, 5);          /* a stray mark in front of the first letter (dead key typed first) */
             for (int k = 0; k < n; ++k) {
                 if (pv_is_accent(cp[k]) && pv_randn(r, 2)) continue;             /* drop */
                 out[m++] = cp[k];
